@@ -474,7 +474,8 @@ func withPackageCallees(fn *ssa.Function, depth int) []*ssa.Function {
 		for _, b := range f.Blocks {
 			for _, ins := range b.Instrs {
 				if c, ok := ins.(ssa.CallInstruction); ok {
-					if sc := c.Common().StaticCallee(); sc != nil && sc.Pkg != nil && sc.Pkg == fn.Pkg && len(sc.Blocks) > 0 {
+					// (instances of generic functions have no package of their own: compare paths)
+					if sc := c.Common().StaticCallee(); sc != nil && fnPkgPath(sc) != "" && fnPkgPath(sc) == fnPkgPath(fn) && len(sc.Blocks) > 0 {
 						walk(sc, d+1)
 					}
 				}
